@@ -97,14 +97,19 @@ class ResetMixin(object):
     def reset(self):
         """Reset all OneTimeProperty attributes that may have fired already."""
         instdict = self.__dict__
-        classdict = self.__class__.__dict__
         # To reset them, we simply remove them from the instance dict.  At that
         # point, it's as if they had never been computed.  On the next access,
         # the accessor function from the parent class will be called, simply
         # because that's how the python descriptor protocol works.
-        for mname, mval in classdict.items():
-            if mname in instdict and isinstance(mval, OneTimeProperty):
-                delattr(self, mname)
+        # The class attribute is looked up along the whole MRO, so that
+        # OneTimeProperty attributes inherited from base classes are reset in
+        # subclasses as well.
+        for mname in list(instdict):
+            for klass in type(self).__mro__:
+                if mname in klass.__dict__:
+                    if isinstance(klass.__dict__[mname], OneTimeProperty):
+                        delattr(self, mname)
+                    break
 
 
 class OneTimeProperty(object):
